@@ -439,13 +439,22 @@ def units(tier, seed):
   out.append(('threads', 2, 1, None))
   out.append(('threads', 2, 2, 1))
   out.append(('threads', 3, 1, 1))
+  # one thread edits inside suspend_tracking blocks while the other does not
+  out.append(('threads', 2, 1, None, 'suspend'))
+  out.append(('threads', 2, 2, 1, 'suspend'))
   return out
 
 
 # ------------------------------------------------------------ thread clause
-def thread_program(cfg, k):
+def thread_program(cfg, k, suspend=False):
   """Edits its own configuration; returns the sequence ids in program order."""
   ids = []
+  if suspend:
+    with history.suspend_tracking():
+      cfg.x = f't{k}-suspended'
+      with history.suspend_tracking():
+        cfg.y = f't{k}-suspended-nested'
+      fdl.add_tag(cfg, 'x', N.TagC)
 
   def last_id():
     return max(e.sequence_id for lst in cfg.__argument_history__.values()
@@ -462,15 +471,27 @@ def thread_program(cfg, k):
   return ids
 
 
-def run_threads(nthreads, bound, res, cap=None):
+def _hist_shape(cfg):
+  return {str(k): [(e.kind.name, repr(e.new_value)) for e in v]
+          for k, v in cfg.__argument_history__.items()}
+
+
+def run_threads(nthreads, bound, res, cap=None, mode='plain'):
   from mc import sched  # pylint: disable=g-import-not-at-top
   stats = {'n': 0}
   vectors = set()
+  susp = lambda k: mode == 'suspend' and k % 2 == 1
+  # what each thread's configuration records when the thread runs alone
+  alone = []
+  for k in range(nthreads):
+    c = fdl.Config(N.node)
+    thread_program(c, k, susp(k))
+    alone.append(_hist_shape(c))
 
   def make_bodies():
     history.set_tracking(enabled=True)
     cfgs = [fdl.Config(N.node) for _ in range(nthreads)]
-    bodies = [(lambda c=c, k=k: (thread_program(c, k), c))
+    bodies = [(lambda c=c, k=k: (thread_program(c, k, susp(k)), c))
               for k, c in enumerate(cfgs)]
     return bodies
 
@@ -478,14 +499,24 @@ def run_threads(nthreads, bound, res, cap=None):
     stats['n'] += 1
     res.transitions += 1
     order, switches = key
-    case = {'threads': nthreads, 'order': list(order),
+    case = {'threads': nthreads, 'order': list(order), 'mode': mode,
             'switches': {str(k): v for k, v in switches.items()}}
     all_ids = []
+    if not history.tracking_enabled():
+      res.violation('C16/threads/main-thread-tracking-flag-changed',
+                    f'{case}', case)
+      return
     for tid, r in enumerate(ex.results):
       if r[0] != 'ok':
         res.violation('C16/threads/thread-raised', f'{case}: {r}', case)
         return
       ids, cfg = r[1]
+      if _hist_shape(cfg) != alone[tid]:
+        res.violation(
+            'C16/threads/history-differs-from-the-thread-running-alone',
+            f'{case}: thread {tid}: {_hist_shape(cfg)} alone: {alone[tid]}',
+            case)
+        return
       if ids != sorted(ids) or len(set(ids)) != len(ids):
         res.violation('C16/threads/ids-not-increasing-in-program-order',
                       f'{case}: thread {tid}: {ids}', case)
@@ -509,7 +540,7 @@ def run_threads(nthreads, bound, res, cap=None):
   res.states += len(vectors)
   res.nontrivial += stats['n']
   res.evals += stats['n']
-  res.outcomes[f'threads{nthreads}:bound{bound}:cap{cap}'] += stats['n']
+  res.outcomes[f'threads{nthreads}:{mode}:bound{bound}:cap{cap}'] += stats['n']
   res.sample({'threads': nthreads, 'preemption_bound': bound,
               'schedules': stats['n'], 'points': r['max_points']})
 
@@ -518,7 +549,8 @@ def run_unit(unit, tier, seed):
   b = bounds(tier)
   res = core.Result()
   if unit[0] == 'threads':
-    run_threads(unit[1], unit[2], res, unit[3])
+    run_threads(unit[1], unit[2], res, unit[3],
+                unit[4] if len(unit) > 4 else 'plain')
     history.set_tracking(enabled=True)
     return res
   world, first = unit
@@ -555,7 +587,7 @@ def run_unit(unit, tier, seed):
 def replay(case):
   res = core.Result()
   if 'threads' in case:
-    run_threads(case['threads'], 2, res)
+    run_threads(case['threads'], 2, res, None, case.get('mode', 'plain'))
     return res
   world = case['world']
   alpha = alphabet(world)
